@@ -300,10 +300,10 @@ Proof.
     intros lf s3 _ W3. apply nret; auto.
 Qed.
 
-Lemma leaf_text_ok : forall fuel total k fl s, wwf total s -> (List.length (wrest s) <= fuel)%nat ->
-  wstepn total s 1 (leaf_text numval fuel k fl s).
+Lemma leaf_text_ok : forall fx fuel total k fl s, wwf total s -> (List.length (wrest s) <= fuel)%nat ->
+  wstepn total s 1 (leaf_text numval fx fuel k fl s).
 Proof.
-  intros fuel total k fl s W Hf. unfold leaf_text. cbv zeta.
+  intros fx fuel total k fl s W Hf. unfold leaf_text. cbv zeta.
   apply wstep_bump; [apply get_coordinates_ok; auto|lia|].
   intros qf s1.
   repeat match goal with |- context [if ?c then _ else _] => destruct c end;
@@ -377,10 +377,10 @@ Proof.
   destruct (Hf a s1) as [(b0 & E0)|[(b0 & E0)|(e & _ & E0)]]; rewrite E0 in E; inversion E; subst; wproj; lia.
 Qed.
 
-Lemma leaf_text_nodes : forall fuel total k fl s b s', wwf total s -> (List.length (wrest s) <= fuel)%nat ->
-  leaf_text numval fuel k fl s = WOk b s' -> wnodes (wst s') = wnodes (wst s) + 1.
+Lemma leaf_text_nodes : forall fx fuel total k fl s b s', wwf total s -> (List.length (wrest s) <= fuel)%nat ->
+  leaf_text numval fx fuel k fl s = WOk b s' -> wnodes (wst s') = wnodes (wst s) + 1.
 Proof.
-  intros fuel total k fl s b s' W Hf. unfold leaf_text. cbv zeta.
+  intros fx fuel total k fl s b s' W Hf. unfold leaf_text. cbv zeta.
   apply (wstep_bump_nodes total s 1); [apply get_coordinates_ok; auto|].
   intros qf s1.
   repeat match goal with |- context [if ?c then _ else _] => destruct c end;
@@ -428,12 +428,12 @@ Variable c : cfg.
 
 Lemma leaf_post : forall total fuel k fl s dq dm, wwf total s -> (List.length (wrest s) <= fuel)%nat -> dq - 1 <= wdmax (wst s) ->
   wpost c total s dq dm 1 zf3
-    (match leaf_text numval fuel k fl s with WOk gf s1 => WOk (fst gf, 1, snd gf) s1 | WErr e t => WErr e t | WFuel => WFuel end).
+    (match leaf_text numval (fix_rings c) fuel k fl s with WOk gf s1 => WOk (fst gf, 1, snd gf) s1 | WErr e t => WErr e t | WFuel => WFuel end).
 Proof.
   intros total fuel k fl s dq dm W Hf D.
-  pose proof (leaf_text_ok numval fuel total k fl s W Hf) as L.
-  destruct (leaf_text numval fuel k fl s) as [gf s1|e t|] eqn:E; [| |contradiction].
-  - pose proof (leaf_text_nodes numval fuel total k fl s gf s1 W Hf E) as N.
+  pose proof (leaf_text_ok numval (fix_rings c) fuel total k fl s W Hf) as L.
+  destruct (leaf_text numval (fix_rings c) fuel k fl s) as [gf s1|e t|] eqn:E; [| |contradiction].
+  - pose proof (leaf_text_nodes numval (fix_rings c) fuel total k fl s gf s1 W Hf E) as N.
     destruct L as (W1 & K & P & F). cbn. unfold zf3; cbn [fst snd].
     split; auto. split; auto. split; auto. split; [apply wflatn_wacct; auto|lia].
   - eapply wstepn_wpost_err; eauto.
@@ -482,7 +482,7 @@ Lemma stepE : forall f total, specT f total -> specP f total -> specE (S f) tota
 Proof.
   intros f total HT HP ek fl d s W D Hf. unfold fuelB in Hf. cbn [read_elem]. cbv zeta.
   assert (LF : forall k, wpost c total s (d + 1) (d + 1) 1 zf3
-            (match leaf_text numval f k fl s with WOk gf s1 => WOk (fst gf, 1, snd gf) s1 | WErr e t => WErr e t | WFuel => WFuel end)).
+            (match leaf_text numval (fix_rings c) f k fl s with WOk gf s1 => WOk (fst gf, 1, snd gf) s1 | WErr e t => WErr e t | WFuel => WFuel end)).
   { intro k. apply leaf_post; auto; lia. }
   assert (PO : wpost c total s (d + 1) (d + 1) 1 zf3
             (match read_poly numval c f fl d s with WOk gf s1 => WOk (fst gf, 1, snd gf) s1 | WErr e t => WErr e t | WFuel => WFuel end)).
@@ -615,7 +615,7 @@ Qed.
 
 Lemma read_body_eq : forall f k fl d s, read_body numval c (S f) k fl d s =
   if (k =? 1) || (k =? 2) || (k =? 13) || (k =? 8) then
-    match leaf_text numval f k fl s with WOk gf s1 => WOk (fst gf, 1, snd gf) s1 | WErr e t => WErr e t | WFuel => WFuel end
+    match leaf_text numval (fix_rings c) f k fl s with WOk gf s1 => WOk (fst gf, 1, snd gf) s1 | WErr e t => WErr e t | WFuel => WFuel end
   else if k =? 3 then
     match read_poly numval c f fl d s with WOk gf s1 => WOk (fst gf, 1, snd gf) s1 | WErr e t => WErr e t | WFuel => WFuel end
   else
@@ -872,7 +872,7 @@ Definition dspecE (fuel : nat) (total : Z) : Prop := forall ek fl d s, wwf total
   dle (read_elem numval c fuel ek fl d s).
 
 Lemma dleaf : forall total f k fl s, wwf total s -> (List.length (wrest s) <= f)%nat -> wdmax (wst s) <= m + 1 ->
-  dle (match leaf_text numval f k fl s with WOk gf s1 => WOk (fst gf, 1, snd gf) s1 | WErr e t => WErr e t | WFuel => WFuel end).
+  dle (match leaf_text numval (fix_rings c) f k fl s with WOk gf s1 => WOk (fst gf, 1, snd gf) s1 | WErr e t => WErr e t | WFuel => WFuel end).
 Proof.
   intros total f k fl s W L D. apply dle_map.
   - eapply dle_stepn; [apply leaf_text_ok; eauto|auto].
@@ -882,7 +882,7 @@ Qed.
 Lemma dstepE : forall f total, dspecT f total -> dspecP f total -> dspecE (S f) total.
 Proof.
   intros f total HT HP ek fl d s W D Hf Dm Ds. unfold fuelB in Hf. cbn [read_elem]. cbv zeta.
-  assert (LF : forall k, dle (match leaf_text numval f k fl s with WOk gf s1 => WOk (fst gf, 1, snd gf) s1 | WErr e t => WErr e t | WFuel => WFuel end)).
+  assert (LF : forall k, dle (match leaf_text numval (fix_rings c) f k fl s with WOk gf s1 => WOk (fst gf, 1, snd gf) s1 | WErr e t => WErr e t | WFuel => WFuel end)).
   { intro k. eapply dleaf; eauto. lia. }
   assert (PO : dle (match read_poly numval c f fl d s with WOk gf s1 => WOk (fst gf, 1, snd gf) s1 | WErr e t => WErr e t | WFuel => WFuel end)).
   { apply dle_map. apply HP; auto. unfold fuelT; lia. intros a s1 _ D1. apply dle_ok; auto. }
